@@ -345,7 +345,12 @@ def _run_pair(params: dict) -> dict:
             # the signature names the shape of the deadlock, not the size or the cut point
             rq = '+remotely_queued' if t.remotely_queued else ''
             ustate = '/'.join(sorted(set(final['up_states']))) or 'none'
-            viol.append((f"no-convergence:dn-{final['dn_state']}{rq}:up-{ustate}",
+            sig_nc = f"no-convergence:dn-{final['dn_state']}{rq}:up-{ustate}"
+            if t.remotely_queued and ustate == 'COMPLETE' and final['dn_state'] in ('INCOMPLETE', 'QUEUED'):
+                # one mechanism: the downloader's renewed PeerTransferQueue reached the uploader while the
+                # previous upload attempt was still in progress (ignored), the uploader then finished COMPLETE
+                sig_nc = 'no-convergence:requeue-request-lost-while-previous-upload-in-progress'
+            viol.append((sig_nc,
                          dict(final, size_class=_size_class(size), modes=sorted(modes))))
         if not demand_progress and final['dn_state'] not in ('COMPLETE', 'INCOMPLETE', 'FAILED', 'QUEUED', 'INITIALIZING', 'DOWNLOADING'):
             viol.append(('after-fin-bad-state', dict(final)))
